@@ -36,7 +36,7 @@ SPEC = dict(
         "(float fields: the stored value is ParseFloat of exactly the literal written). VALIDATED, not proved: that the "
         "Go code equals the model (differential run on every check, incl. an exact rational model of strconv.ParseFloat, "
         "bytes.TrimSpace, utf8.Valid, SanitizeUTF8), and the Arrow/Parquet encoding after convertColumnsToTyped; the HTTP "
-        "handler and the Parquet read-back are NOT exercised by this check."),
+        "handler itself is not run; an end-to-end stage (real parser -> BatchToColumnar -> real ArrowBuffer on a LocalBackend -> FlushAll -> Parquet read-back with arrow-go, sequences of 2-4 requests with key sets engineered to collide under naive joins) and a concurrency stage (one shared parser, 2-8 goroutines) are monitor-only validation."),
     technique="Lean 4 proof over a byte-level executable model of the line-protocol parser; regenerated escape/boolean/precision facts; differential correspondence against the real parser, BatchToColumnar and convertColumnsToTyped; ground-truth monitors",
     factgen=True,
     rewrite=[("internal/ingest/lineprotocol.go", _virtual_now)],
